@@ -39,6 +39,9 @@ CLAIMS = {
     "C03": dict(cat="proof", ref="DESIGN.md 5/C03",
         text="for every entry of CODE_API_MAP and symbolic arguments over the documented domain: the command has the registered verb/code, its payload is in the schema regex's language, the library's own decoder accepts the frame and (where stated) the decoded payload carries the values passed in; out-of-domain zone indexes are refused -- SMT-discharged on the real constructors, Command.__init__ and parsers; six constructors violate it on the unchanged tree and are listed known findings",
         note="trusted: pyvc semantics, z3; the temperature codec and hex_to_str by their C04/C05 contracts (modular); get_opentherm_data over all 256 msg-ids by an exhaustive native enumeration (its parity computation is outside the solver's reach) -- complete for that finite domain but not an SMT proof; set_fan_param / put_bind only for sample parameters / code lists"),
+    "C08": dict(cat="other", ref="DESIGN.md 5/C08",
+        text="partial: ProtocolContext.__init__ caps (retry limit 3, buffer 32); _check_buffer_for_cmd (nothing dequeued while a future is pending, queue order, done futures skipped, tx_limit = 1 + min(max_retries, limit), exactly one send); and, by executing the real set_state / effect_state / expire_state_on_timeout / _send_cmd step by step against typestate contracts of the loop, futures and queue, for every loss pattern over the attempts and all max_retries 0..5: at most 1 + min(max_retries,3) transmissions, exactly that many before a failure, waits of 1/2/4/8 x the timeout, the arriving packet completes the send, nothing is sent after the caller is answered -- SMT-discharged",
+        note="trusted: pyvc semantics; asyncio loop (FIFO call_soon, tasks), Future and PriorityQueue are typestate contracts written in the harness (assumption A13); one command at a time (the single-context invariant is structural: _fut pending blocks dequeue); NOT decided: that the budget is reached when the caller's timeout allows (liveness), real-time spacing, start order under equal priority AND equal dt.now(), concurrent callers timing out while queued"),
 }
 
 NA = {
